@@ -237,7 +237,14 @@ func (t *Table) compileOps(ops []Op, u *Universe) []byte {
 		case "SELFDESTRUCT":
 			a.SelfDestruct(u.A(o.To))
 		case "REVERT":
-			a.Revert()
+			if o.N == 1 {
+				// revert("") of a high-level language: REVERT with the ABI encoding of Error(string) carrying the empty string
+				data := append([]byte{0x08, 0xc3, 0x79, 0xa0}, make([]byte, 64)...)
+				data[4+31] = 0x20
+				a.MemStore(data).PushU(uint64(len(data))).PushU(0).Op(asm.REVERT)
+			} else {
+				a.Revert()
+			}
 		case "INVALID":
 			a.Op(asm.INVALID)
 		case "STOP":
